@@ -39,7 +39,7 @@ class C24(Check):
                            "os.read/os.write of the serial fd (substrate.serial)", "far end (scripted raw endpoint)"]}
     assumptions = ["fake sockets follow measured Linux loopback semantics (selftest/fidelity.py)",
                    "TLS is a stub: OpenSSL is not exercised"]
-    required_probes = ["partial-send", "send-eagain", "send-zero", "recv-eagain", "queued-while-sending", "quiescent-equal"]
+    required_probes = ["partial-send", "send-eagain", "send-zero", "recv-eagain", "queued-while-sending", "quiescent-equal", "caller-supplied-containers"]
     quick_runs = 40000
     thorough_runs = 2000000
     shrink_fields = ["faults", "schedule", "msgs_a", "msgs_b"]
@@ -112,7 +112,7 @@ class C24(Check):
                         k = f.choice(["eagain", "short"])
                         faults.append([rsite, occ, k, f.choice([1, 2, 3])] if k == "short" else [rsite, occ, k])
         return {"transport": t, "cap": cap, "bs": bs, "maxrec": maxrec, "msgs_a": msgs_a, "msgs_b": msgs_b,
-                "schedule": sched, "faults": faults}
+                "schedule": sched, "faults": faults, "own": S.gen.random() < 0.3}
 
     # ------------------------------------------------------------------
     def execute(self, plan):
@@ -122,7 +122,9 @@ class C24(Check):
         extra = []
         abstract = hashlib.sha256()
         with world(faults=plan["faults"], out=out, cap=plan["cap"], trace=tr) as net:
-            ep = make_endpoint(net, t, bs=plan["bs"], maxrec=plan["maxrec"])
+            ep = make_endpoint(net, t, bs=plan["bs"], maxrec=plan["maxrec"], own=bool(plan.get("own")) and t in ("client", "clienttls"))
+            if ep is not None and getattr(ep, "own_txes", None) is not None:
+                out.probe("caller-supplied-containers")
             if ep is None:
                 raise RuntimeError("harness: could not establish %s" % t)
             if t == "serial":
@@ -162,6 +164,9 @@ class C24(Check):
         def fail(kind, detail):
             out.violate(kind, "%s:%s" % (t, kind), detail)
 
+        def rxbuf():
+            return ep.own_rxbs if getattr(ep, "own_rxbs", None) is not None else sut.rxbs
+
         def call(name, fn):
             try:
                 fn()
@@ -177,7 +182,10 @@ class C24(Check):
                 if nq < len(msgs_a):
                     if ep.accepted() != bytes(queued) and len(sut.txes):
                         out.probe("queued-while-sending")
-                    sut.tx(msgs_a[nq])
+                    if getattr(ep, "own_txes", None) is not None:
+                        ep.own_txes.append(msgs_a[nq])      # queued through the caller's own deque
+                    else:
+                        sut.tx(msgs_a[nq])
                     queued.extend(msgs_a[nq])
                     nq += 1
             elif op == "tx":
@@ -225,7 +233,7 @@ class C24(Check):
                 if err or data != acc:
                     fail("wirelog-tx", "wire log tx %r (%s) != accepted %r" % (data, err, acc))
                     return False
-            rx = bytes(sut.rxbs)
+            rx = bytes(rxbuf())
             got = b"".join(ep.received_chunks())
             if rx != got:
                 fail("rxbs-order", "rxbs %r != chunks in arrival order %r" % (rx, got))
@@ -257,23 +265,23 @@ class C24(Check):
         net.faults.enabled = False
         same = 0
         for rnd in range(400):
-            before = (len(ep.accepted()), len(sut.rxbs), nq, peer_off, len(peer_got))
+            before = (len(ep.accepted()), len(rxbuf()), nq, peer_off, len(peer_got))
             for st in (["q"], ["tx"], ["dl", 0, 1 << 20], ["pr", 1 << 20], ["ps", 1 << 20], ["dl", 1, 1 << 20], ["rx"]):
                 if not (step(st) and invariants()):
                     return
                 out.steps += 1
             if serial is not None:
                 peer_got.extend(b"")  # far end of a serial line has no read step
-            after = (len(ep.accepted()), len(sut.rxbs), nq, peer_off, len(peer_got))
+            after = (len(ep.accepted()), len(rxbuf()), nq, peer_off, len(peer_got))
             same = same + 1 if (after == before and nq == len(msgs_a)) else 0
             if same >= 3:
                 break
         acc = ep.accepted()
-        tr.add("final", acc, bytes(sut.rxbs))
+        tr.add("final", acc, bytes(rxbuf()))
         if acc != bytes(queued) or len(sut.txes):
             fail("lost-at-quiescence", "accepted %r != queued %r (txes %r)" % (acc, bytes(queued), list(sut.txes)))
-        elif bytes(sut.rxbs) != peer_stream[:peer_off]:
-            fail("rx-lost-at-quiescence", "rxbs %r != sent by far end %r" % (bytes(sut.rxbs), peer_stream[:peer_off]))
+        elif bytes(rxbuf()) != peer_stream[:peer_off]:
+            fail("rx-lost-at-quiescence", "rxbs %r != sent by far end %r" % (bytes(rxbuf()), peer_stream[:peer_off]))
         elif serial is None and bytes(peer_got) != acc:
             fail("peer-got", "far end read %r != accepted %r" % (bytes(peer_got), acc))
         else:
